@@ -84,6 +84,8 @@ def parseHOp? (s : String) : Option HOp :=
     let l ← parseBool? l
     let i ← ellIndex? e
     pure (.withDelta p l (some i))
+  | ["rt", e] => (ellIndex? e).map (fun i => .retag (some i))
+  | ["pk"] => some .poke
   | _ => none
 
 def handle : List String → Option String
@@ -100,7 +102,11 @@ def handle : List String → Option String
     let ops ← parseList? parseHOp? ops
     match hrun Midgard.Generated.EllipsoidFlow.sites Midgard.Generated.EllipsoidArith.branches
         Midgard.Generated.EllipsoidArith.factories ⟨c, some i⟩ ops with
-    | some r => pure s!"{showCls r.cls} {ellName r.ell}"
+    | some r =>
+      let ans := hanswered Midgard.Generated.EllipsoidFlow.sites Midgard.Generated.EllipsoidArith.branches
+        Midgard.Generated.EllipsoidArith.factories Midgard.Generated.EllipsoidArith.setattrClearsCache
+        Midgard.Generated.EllipsoidArith.setitemClearsCache ⟨c, some i⟩ none ops
+      pure s!"{showCls r.cls} {ellName r.ell} {showList (fun a => ellName a.on ++ (if a.current then "" else "!stale")) ans}"
     | none => pure "failed"
   | ["c05", "ell", name] => do
     let E ← ellQ? name
